@@ -1,0 +1,6 @@
+//go:build !verif
+
+package uuid
+
+// verifClock is the disabled form of verification hook H3: the wall clock is always used.
+func verifClock() (int64, bool) { return 0, false }
